@@ -200,22 +200,20 @@ def _flow(ctx, prog, te):
                     return 1
             return None
 
+        FEE_SRC = ("Swap::charge_fees", "FeeParams::apply_fees")   # private helper present or inlined
+
         def namer(x):
-            m = x
-            proj = ""
-            while m.k in ("try", "field"):
-                if m.k == "field":
-                    proj = "." + m.a[1] + proj
-                m = m.a[0]
+            m, proj = H.chain_root(x)
             if m.k == "call":
                 nm = m.a[0]
                 if nm == "SwapMarketExt::swap_impact_amount_with_cap":
                     return "impact_amount[%s]%s" % (H.side_shape(m.a[1][1], SIDE), proj)
-                if nm == "Swap::charge_fees":
+                if nm in FEE_SRC:
                     return "charge_fees" + proj
-                if nm in ("Fees::fee_amount_for_pool", "Fees::fee_amount_for_receiver") and \
-                        re.match(r"^Swap::charge_fees\(.*\)\?\.1$", str(m.a[1][0])):
-                    return nm.split("::")[1]
+                if nm in ("Fees::fee_amount_for_pool", "Fees::fee_amount_for_receiver") and proj == "":
+                    r, pj = H.chain_root(m.a[1][0])
+                    if r.k == "call" and r.a[0] in FEE_SRC and pj == ".1":
+                        return nm.split("::")[1]
             return None
 
         lin = lambda x: H.lin_of(x, namer, sign_of)
@@ -309,13 +307,19 @@ def _strip(e):
 # ---------------------------------------------------------------------------------------------- aux
 
 def _aux(ctx, prog):
-    cf = ctx.fn(r"gmsol_model::action::swap::Swap::<M, DECIMALS>::charge_fees")
-    if cf is not None:
-        cs = cf.calls_to(r"FeeParams::<T>::apply_fees$")
-        ok = len(cs) == 1 and str(cs[0].arg_expr(2)) == "self.params.token_in_amount" and \
-            re.match(r"^SwapMarket::swap_fee_params\(self\.market\)\?$", str(cs[0].arg_expr(0))) is not None
-        ctx.ob("fee-base:charge_fees", bool(ok), "charge_fees applies swap_fee_params(self.market) to self.params.token_in_amount (%s)" % (
-            [str(cs[0].arg_expr(i)) for i in (0, 2)] if cs else "no apply_fees call"), where=cf.where())
+    # the fee step: through the private helper Swap::charge_fees, or inlined into try_execute
+    cands = prog.find_fns(r"gmsol_model::action::swap::Swap::<M, DECIMALS>::(charge_fees|try_execute)")
+    sites = [(g, c) for g in cands for c in g.calls_to(r"FeeParams::<T>::apply_fees$")]
+    ok = len(sites) == 1
+    msg = "%d apply_fees call sites in charge_fees/try_execute" % len(sites)
+    if ok:
+        g, c = sites[0]
+        ctx.analysed_fns.add(g.id)
+        a = [str(c.arg_expr(i)) for i in (0, 2)]
+        ok = a[1] == "self.params.token_in_amount" and re.match(r"^SwapMarket::swap_fee_params\(self\.market\)\?$", a[0]) is not None
+        msg = "%s applies %s to %s" % (g.short, a[0], a[1])
+    ctx.ob("fee-base:charge_fees", bool(ok), "swap fees = apply_fees(swap_fee_params(self.market), .., self.params.token_in_amount): %s" % msg,
+           where=sites[0][0].where() if sites else "crates/model/src/action/swap.rs")
     rv = ctx.fn(r"gmsol_model::action::swap::Swap::<M, DECIMALS>::reassign_values")
     if rv is not None:
         ps = H.success_paths(rv)
